@@ -336,6 +336,10 @@ class Parser:
             return self.trailing_redirs(node)
         if p.kind == "arith":
             self.i += 1
+            c = arith_as_cond(p.text)
+            if c is not None:
+                # `(( a < b ))` used as a test is `[[ $a -lt $b ]]` written in arithmetic: read as the latter
+                return self.trailing_redirs(N("cond", line, text=c, tests=parse_cond(c), arith=True))
             return N("arith", line, text=p.text)
         if p.kind == "op" and p.text == "(":
             self.i += 1
@@ -467,7 +471,24 @@ class Parser:
         if not words and not redirs:
             p = self.peek()
             raise ParseError(f"line {p.line}: empty command at {p!r}")
+        if len(words) == 2 and words[0] == "local" and re.fullmatch(r"[A-Za-z_]\w*=[A-Za-z_]\w*\$\{\w+\}", words[1]):
+            # `local N=stem${v}` computes a variable NAME from name characters only: the same statement as `eval "local N=stem${v}"`
+            # (the form the templates use for all by-name selections) -- read as that
+            words = ["eval", '"local ' + words[1] + '"']
         return N("simple", line, words=words, redirs=redirs)
+
+
+ARITH_CMP = {"<": "-lt", "<=": "-le", ">": "-gt", ">=": "-ge", "==": "-eq", "!=": "-ne"}
+_AR_OPND = r"(?:\$?[A-Za-z_]\w*|\d+|\$\{[^{}]*\})"
+
+
+def arith_as_cond(text):
+    """`A op B` with one comparison between two plain operands (a name, a number, a ${..} expansion) -> the `[[ ]]` spelling"""
+    m = re.fullmatch(r"\s*(%s)\s*(<=|>=|==|!=|<|>)\s*(%s)\s*" % (_AR_OPND, _AR_OPND), text)
+    if not m:
+        return None
+    f = lambda o: ("$" + o) if re.fullmatch(r"[A-Za-z_]\w*", o) else o
+    return f"{f(m.group(1))} {ARITH_CMP[m.group(2)]} {f(m.group(3))}"
 
 
 COND_BINOPS = {"==", "=", "!=", "=~", "<", ">", "-eq", "-ne", "-lt", "-le", "-gt", "-ge"}
